@@ -351,3 +351,235 @@ def enclosing_conjuncts(fn, target, index=None):
         return False
     visit(fn.node.body, [])
     return res
+
+
+def calls_in_eval_order(node):
+    """Call nodes under `node` (nested defs excluded) in EVALUATION order: statements in source
+    order; for a call, first its receiver / function expression, then its arguments, then the call
+    itself - so a chain a.f().g() yields f before g."""
+    def expr(e):
+        if isinstance(e, (ast.FunctionDef, ast.AsyncFunctionDef, ast.Lambda, ast.ClassDef)):
+            return
+        if isinstance(e, ast.Call):
+            yield from expr(e.func)
+            for a in e.args:
+                yield from expr(a)
+            for k in e.keywords:
+                yield from expr(k.value)
+            yield e
+            return
+        for c in ast.iter_child_nodes(e):
+            yield from expr(c)
+    if isinstance(node, (ast.FunctionDef, ast.AsyncFunctionDef)):
+        for st in node.body:
+            yield from expr(st)
+    else:
+        yield from expr(node)
+
+
+# ---------------------------------------------------------------------------
+# Helper inlining: the normal form in which structural rules look at a routine
+# ---------------------------------------------------------------------------
+def _helper_inlinable(h):
+    """A private in-package helper whose control flow lets its body replace a call: every
+    `return` is the last statement of the function body (so the body is a statement list that
+    falls through to one result), no generator, no nested def that captures, no *args/**kw."""
+    a = h.node.args
+    if a.vararg or a.kwarg or a.kwonlyargs:
+        return False
+    body = docstring_stripped(h.node.body)
+    if not body:
+        return False
+    rets = [n for n in walk_no_nested(h.node) if isinstance(n, ast.Return)]
+    if any(isinstance(n, (ast.Yield, ast.YieldFrom, ast.Global, ast.Nonlocal)) for n in walk_no_nested(h.node)):
+        return False
+    if any(isinstance(n, (ast.FunctionDef, ast.Lambda, ast.ClassDef)) for st in body for n in ast.walk(st)):
+        return False
+    if len(rets) > 1:
+        return False
+    if rets and rets[0] is not body[-1]:
+        return False
+    return True
+
+
+def _helper_inlinable_tail(h):
+    """weaker condition for a call that is the LAST thing its caller does (statement call in tail
+    position, result unused): early bare `return`s are fine, they end the caller as well"""
+    a = h.node.args
+    if a.vararg or a.kwarg or a.kwonlyargs:
+        return False
+    if any(isinstance(n, (ast.Yield, ast.YieldFrom, ast.Global, ast.Nonlocal)) for n in walk_no_nested(h.node)):
+        return False
+    body = docstring_stripped(h.node.body)
+    if not body or any(isinstance(n, (ast.FunctionDef, ast.Lambda, ast.ClassDef)) for st in body for n in ast.walk(st)):
+        return False
+    return all(n.value is None for n in walk_no_nested(h.node) if isinstance(n, ast.Return))
+
+
+def inlined(index, fn, depth=2, only_private=True, keep=()):
+    """A copy of `fn` (same identity fields) whose body has the calls of inlinable private helpers
+    replaced by the helpers' statements:
+       helper(args)            ->  <body>
+       x = helper(args)        ->  <body without its return>; x = <returned expression>
+       return helper(args)     ->  <body without its return>; return <returned expression>
+       x += helper(args)       ->  <body ...>; x += <returned expression>
+    Parameters are substituted by the argument expressions when those are names, attributes,
+    constants or subscripts of such (re-evaluation is harmless), otherwise bound to a fresh
+    local first; the helper's locals are renamed only where they would collide with the caller's
+    names.  Rules look at the result, so extracting a block into a helper does not change what
+    they see.  Helpers that cannot be inlined are left as calls."""
+    import copy
+    node = copy.deepcopy(fn.node)
+    counter = [0]
+
+    def names_of(n):
+        return {x.id for x in ast.walk(n) if isinstance(x, ast.Name)} | \
+               {a.arg for x in ast.walk(n) if isinstance(x, ast.arguments) for a in x.posonlyargs + x.args + x.kwonlyargs}
+
+    def simple(e):
+        if isinstance(e, (ast.Name, ast.Constant)):
+            return True
+        if isinstance(e, ast.Attribute):
+            return simple(e.value)
+        if isinstance(e, ast.Subscript):
+            return simple(e.value) and isinstance(e.slice, (ast.Constant, ast.Name))
+        return False
+
+    def expand(call, owner, level, keep_name=None, tail=False):
+        """(prefix statements, result expression or None) or None when not inlinable"""
+        h = resolve_callee(index, owner, call)
+        if h is None or h.key == fn.key or (only_private and not h.name.startswith("_")) \
+                or not (_helper_inlinable(h) or (tail and _helper_inlinable_tail(h))) or h.name in keep:
+            return None   # (`keep`: helpers the rule itself treats as atomic operations)
+        ps = [a.arg for a in h.node.args.posonlyargs + h.node.args.args]
+        if h.kind in ("method", "classmethod", "property"):
+            recv = call.func.value if isinstance(call.func, ast.Attribute) else None
+            if recv is None or not isinstance(recv, ast.Name):
+                return None
+            bind = {ps[0]: recv}
+            ps = ps[1:]
+        else:
+            bind = {}
+        if len(call.args) > len(ps) or any(isinstance(a, ast.Starred) for a in call.args):
+            return None
+        given = dict(zip(ps, call.args))
+        if keep_name is not None and any(isinstance(x, ast.Name) and x.id == keep_name for a_ in call.args for x in ast.walk(a_)):
+            keep_name = None
+        for kw in call.keywords:
+            if kw.arg is None or kw.arg not in ps or kw.arg in given:
+                return None
+            given[kw.arg] = kw.value
+        defaults = h.node.args.defaults
+        for p_, d in zip(ps[len(ps) - len(defaults):] if defaults else [], defaults):
+            given.setdefault(p_, d)
+        if set(ps) - set(given):
+            return None
+        body = copy.deepcopy(docstring_stripped(h.node.body))
+        prefix = []
+        caller_names = names_of(node)
+        assigned_in_h = {t.id for st in body for n in ast.walk(st) if isinstance(n, (ast.Assign, ast.AugAssign, ast.AnnAssign, ast.For))
+                         for t in ast.walk(n.targets[0] if isinstance(n, ast.Assign) else n.target) if isinstance(t, ast.Name)}
+        for p_ in ps:
+            a = given[p_]
+            if simple(a) and p_ not in assigned_in_h:
+                bind[p_] = a
+            else:
+                counter[0] += 1
+                fresh = p_ if p_ not in caller_names else f"{p_}__{counter[0]}"
+                prefix.append(ast.Assign(targets=[ast.Name(id=fresh, ctx=ast.Store())], value=a, lineno=call.lineno, col_offset=0))
+                bind[p_] = ast.Name(id=fresh, ctx=ast.Load())
+        rename = {}
+        for nm in sorted(assigned_in_h - set(ps)):
+            if nm in caller_names and nm != keep_name:
+                counter[0] += 1
+                rename[nm] = f"{nm}__{counter[0]}"
+
+        class Sub(ast.NodeTransformer):
+            def visit_Name(self, n):
+                if n.id in bind and isinstance(n.ctx, ast.Load):
+                    return copy.deepcopy(bind[n.id])
+                if n.id in bind and isinstance(bind[n.id], ast.Name):
+                    return ast.Name(id=bind[n.id].id, ctx=n.ctx)
+                if n.id in rename:
+                    return ast.Name(id=rename[n.id], ctx=n.ctx)
+                return n
+        body = [Sub().visit(st) for st in body]
+        result = None
+        if body and isinstance(body[-1], ast.Return):
+            result = body[-1].value
+            body = body[:-1]
+        hfn = h
+        if level < depth:
+            body = block(body, hfn, level + 1, tail)
+        return prefix + body, result
+
+    def block(stmts, owner, level, tail=False):
+        out = []
+        for i_, st in enumerate(stmts):
+            done = False
+            last = tail and i_ == len(stmts) - 1
+            if isinstance(st, ast.Expr) and isinstance(st.value, ast.Call):
+                r = expand(st.value, owner, level, tail=last)
+                if r is not None:
+                    out.extend(r[0])
+                    done = True
+            elif isinstance(st, (ast.Assign, ast.AugAssign, ast.Return, ast.AnnAssign)) and isinstance(st.value, ast.Call):
+                tname = st.targets[0].id if isinstance(st, ast.Assign) and len(st.targets) == 1 \
+                    and isinstance(st.targets[0], ast.Name) else None
+                r = expand(st.value, owner, level, keep_name=tname)
+                if r is not None and r[1] is not None:
+                    out.extend(r[0])
+                    if not (tname is not None and isinstance(r[1], ast.Name) and r[1].id == tname):
+                        st2 = copy.copy(st)
+                        st2.value = r[1]
+                        out.append(st2)
+                    done = True
+            if not done:
+                for name in ("body", "orelse", "finalbody"):
+                    b_ = getattr(st, name, None)
+                    if isinstance(b_, list) and b_ and isinstance(b_[0], ast.stmt) and not isinstance(st, (ast.FunctionDef, ast.ClassDef)):
+                        setattr(st, name, block(b_, owner, level, last and isinstance(st, ast.If)))
+                for h_ in getattr(st, "handlers", []) or []:
+                    h_.body = block(h_.body, owner, level)
+                out.append(st)
+        return out
+    node.body = block(node.body, fn, 1, True)
+    ast.fix_missing_locations(node)
+    # line numbers follow the NEW statement order (rules compare positions); the original line is
+    # kept for messages
+    line = [node.lineno]
+
+    def renumber(stmts):
+        for st in stmts:
+            line[0] += 1
+            for x in ast.walk(st) if not isinstance(st, (ast.If, ast.For, ast.While, ast.With, ast.Try)) else [st]:
+                if hasattr(x, "lineno"):
+                    x._orig_lineno = getattr(x, "_orig_lineno", x.lineno)
+                    x.lineno = line[0]
+            if isinstance(st, (ast.If, ast.For, ast.While, ast.With, ast.Try)):
+                for f_ in ("test", "iter", "target"):
+                    e_ = getattr(st, f_, None)
+                    if e_ is not None:
+                        for x in ast.walk(e_):
+                            if hasattr(x, "lineno"):
+                                x._orig_lineno = getattr(x, "_orig_lineno", x.lineno)
+                                x.lineno = line[0]
+                for it in getattr(st, "items", []) or []:
+                    for x in ast.walk(it):
+                        if hasattr(x, "lineno"):
+                            x._orig_lineno = getattr(x, "_orig_lineno", x.lineno)
+                            x.lineno = line[0]
+                for name in ("body", "orelse", "finalbody"):
+                    b_ = getattr(st, name, None)
+                    if isinstance(b_, list) and b_ and isinstance(b_[0], ast.stmt):
+                        renumber(b_)
+                for h_ in getattr(st, "handlers", []) or []:
+                    line[0] += 1
+                    h_._orig_lineno = getattr(h_, "_orig_lineno", h_.lineno)
+                    h_.lineno = line[0]
+                    renumber(h_.body)
+    renumber(node.body)
+    clone = copy.copy(fn)
+    clone.node = node
+    clone.inlined_from = fn
+    return clone
